@@ -8,6 +8,22 @@ props = [json.loads(l) for l in open(os.path.join(V, "properties.jsonl"))]
 DIFF = "bounded-exhaustive grammar/derivation enumeration executed on the real code, compared point by point with a reference interpreter"
 META = "bounded-exhaustive enumeration of identity-schema instantiations x documents executed on the real code; metamorphic oracle (implementation against itself)"
 claimed = {
+ "C02": (DIFF,
+         "for every built-in every argument count and the full Cartesian product of a typed value alphabet over the argument positions (literal and document delivery; expression-reference menus incl. let-bound variables) is called and compared with the reference's value / error category",
+         "trusts the per-function table of DESIGN.md appendix A as implemented in mc/ref/funcs.go; abstentions are counted in the evidence",
+         "4/C02"),
+ "C05": ("bounded-exhaustive enumeration of operand pairs/triples x operators x carriers executed on the real code; oracle = exact rational arithmetic (math/big)",
+         "every ordered pair of the operand alphabet (coefficients x exponents x signs over the decimal128 range) through every arithmetic operator spelling and comparator, singles through unary/abs/ceil/floor/to_number, triples through sum/avg, each delivered as json.Number, literal and decimal128; exact where representable, within 1 unit of the 34th digit otherwise, error on overflow/zero division",
+         "trusts math/big and the 60-line shape/rounding helper in mc/ref/funcs.go; the very top of the exponent range (dependency behaviour) is abstained",
+         "4/C05"),
+ "C19": (DIFF,
+         "every let form of the menu (1-2 bindings, nesting, shadowing, shadow ending, use after the body, lets under projections/pipes/expression references) x binding expressions x body templates x documents compared with the reference's immutable environment chain",
+         "trusts the reference interpreter's scoping rules (appendix C)",
+         "4/C19"),
+ "C20": ("bounded-exhaustive enumeration of value pairs/triples executed on the real code; algebraic laws on the implementation's own answer matrix + agreement with the reference's deep equality and truth rule",
+         "all ordered pairs of the value alphabet through ==, !=, contains and literal spelling; reflexivity, symmetry and transitivity over the whole answer matrix (all triples); every value/pair through !, &&, ||, [?@], [?x].y against the five-falsy rule with operand identity preserved",
+         "trusts the 60-line reference deepEqual/truthy; numbers delivered as json.Number only (C14 covers other kinds)",
+         "4/C20"),
  "C10": ("bounded-exhaustive enumeration of operator pairs/triples x operand shapes x variable assignments on the real code; metamorphic oracle (flat vs spec-parenthesised), competing grouping cross-checked against the reference evaluator",
          "all 18x18 ordered operator pairs (each operand position varied over 9 shapes x 5 unary prefixes), all 18^3 triples and all unary/binary combinations are evaluated flat and with the implied parentheses on every assignment of the operand variables; outcomes must be equal",
          "trusts the specification's precedence table as transcribed in c10Paren (30 lines) and, for the parentheses-override part, the reference evaluator",
